@@ -7,6 +7,11 @@ ROOT = os.path.dirname(os.path.dirname(os.path.abspath(__file__)))
 
 # id -> (category, technique, level text, level note, design ref)
 CHECKS = {
+    "C15": ("exploration",
+            "TLC-generated programs (behaviours of the Lifecycle spec and in-domain lookup cases of the functional specs) executed in four build configurations under ASan/UBSan/LSan and valgrind, each compared step by step with the specification's state",
+            "The randomly generated programs the property asks for are the behaviours TLC generates from spec/LifecycleGen.tla (one per transition of the abstract state graph plus seeded 30-operation simulations) and the in-domain lookup cases emitted by the Coord and Interp modules; every program runs at -O0 and -O1 with assertions under ASan+UBSan+LSan, at -O2 -DNDEBUG, and at -O2 -DNDEBUG under valgrind memcheck, and every build must reproduce the state the specification prescribes after every step (so debug and release agree with each other).",
+            "Exploration, not proof: whether an execution contains UB is decided by the sanitizers, assertions and valgrind on the executions performed; TLA+ contributes the programs, the argument domain and the expected results. Trusted: TLC, g++ 12, sanitizer runtimes, valgrind 3.19.",
+            "DESIGN.md section 4, C15 and section 6"),
     "C12": ("model_checking",
             "TLA+ state machine of field slots, heap blocks and a ghost array model checked by TLC + TLC-generated behaviours (one per transition, plus seeded simulations) replayed on real fields with full state comparison after every step",
             "TLC exhausts every history of construct / write / copy and move construction and assignment (incl. self-assignment) / conversion / dump / load / destroy over 2 slots (<= 5 or 6 operations) and 3 slots (<= 5) and checks Refines, NoAlias, NoUseAfterFree, NoDoubleFree, NoLeak; the implementation is bound by replaying one witness behaviour per transition of the abstract state graph and simulated 30-operation histories on real fields, comparing all values, configurations and the number of live storage blocks after every step under ASan/LSan/UBSan.",
